@@ -121,7 +121,12 @@ def call_case(case):
     from jaqalpaq.error import JaqalError
 
     sig, vcs, variant = case["sig"], case["args"], case.get("variant", 0)
-    params = [Parameter(f"a{i}", None if k == "NONE" else getattr(ParamType, k)) for i, k in enumerate(sig)]
+    # parameter names are free: also names that are special to Python (the receiver of a method,
+    # the names of catch-all arguments) - they are ordinary Jaqal identifiers
+    names = [f"a{i}" for i in range(len(sig))]
+    if names and variant % 3 == 0:
+        names[(variant // 3) % len(names)] = ["self", "args", "kwargs", "name"][(variant // 3) % 4]
+    params = [Parameter(names[i], None if k == "NONE" else getattr(ParamType, k)) for i, k in enumerate(sig)]
     cls = Macro if case.get("macro") else GateDefinition
     gd = cls("gt", params)
     vals = [value(vc, variant + i) for i, vc in enumerate(vcs)]
@@ -130,7 +135,7 @@ def call_case(case):
     if arity_ok and any(j is None for j in judged) and all(j is not False for j in judged):
         raise Skip()
     expect = arity_ok and all(j is True for j in judged)
-    desc = f"signature {sig}, arguments {vcs} = {[repr(v) for v in vals]}"
+    desc = f"signature {sig} (parameters {names}), arguments {vcs} = {[repr(v) for v in vals]}"
     if case.get("warm"):
         # the definition has been USED before: a fitting call whose arguments have the same Python
         # types as values that do not fit (an integral float for INT).  A definition checks every
@@ -147,20 +152,25 @@ def call_case(case):
     if expect:
         order = list(range(len(sig)))
         order = order[variant % max(1, len(order)) :] + order[: variant % max(1, len(order))]
-        kwargs = {f"a{i}": vals[i] for i in reversed(order)}
+        kwargs = {names[i]: vals[i] for i in reversed(order)}
         if kwargs:
-            st2, r2 = guard(gd, what="keyword call", **kwargs)
+            try:
+                st2, r2 = guard(gd, what="keyword call", **kwargs)
+            except TypeError as e:
+                # raised by the interpreter while binding the call (no frame of the library on
+                # the traceback): the definition's own signature is in the way of a parameter name
+                raise Violation("keyword-call-rejected", f"TypeError: {e}\n{desc}", where="TypeError")
             if st2 == "err":
                 raise Violation("keyword-call-rejected", f"{r2}\n{desc}")
-            if not (r2 == r) or list(r2.parameters) != [f"a{i}" for i in range(len(sig))] or list(r.parameters) != list(r2.parameters):
+            if not (r2 == r) or list(r2.parameters) != names or list(r.parameters) != list(r2.parameters):
                 raise Violation("keyword-call-differs", f"positional {r} / keyword {r2} (order {list(r2.parameters)})\n{desc}")
             for i in range(len(sig)):
-                if r2.parameters[f"a{i}"] is not vals[i]:
-                    raise Violation("keyword-call-differs", f"parameter a{i}\n{desc}")
+                if r2.parameters[names[i]] is not vals[i]:
+                    raise Violation("keyword-call-differs", f"parameter {names[i]}\n{desc}")
         # misuse of the keyword form must be rejected with JaqalError
         if len(sig) >= 1:
             wrong = dict(kwargs)
-            wrong["nosuch"] = wrong.pop("a0")
+            wrong["nosuch"] = wrong.pop(names[0])
             st3, r3 = guard(gd, what="keyword call with a wrong name", **wrong)
             if st3 == "ok":
                 raise Violation("bad-keyword-accepted", f"keywords {list(wrong)}\n{desc}")
@@ -170,7 +180,7 @@ def call_case(case):
             if st3 == "ok":
                 raise Violation("bad-keyword-accepted", f"keywords {list(extra)}\n{desc}")
         if len(sig) >= 2:
-            st3, r3 = guard(gd, vals[0], what="mixed positional/keyword call", **{f"a{i}": vals[i] for i in range(1, len(sig))})
+            st3, r3 = guard(gd, vals[0], what="mixed positional/keyword call", **{names[i]: vals[i] for i in range(1, len(sig))})
             if st3 == "ok":
                 raise Violation("mixed-call-accepted", desc)
     boundary = any(vc in ("float-integral", "const-float-integral", "float-nonfinite", "param-NONE") for vc in vcs) and len(set(sig)) >= 2
